@@ -275,6 +275,14 @@ func replicate(p Plan, want []BlockResult, replicas int) (out outcome) {
 						return
 					}
 					if d := compareBlock(bi, blk, got, gi, false); d != "" {
+						if os.Getenv("VERIF_DEBUG_DUMP") != "" {
+							for i, e := range got.EventStrs {
+								fmt.Println("SRC", i, e)
+							}
+							for i, e := range gi.EventStrs {
+								fmt.Println("IMP", i, e)
+							}
+						}
 						out.msg = fmt.Sprintf("node initialised from the export at height %d diverged from its source: %s", p.ExportAt, d)
 						return
 					}
